@@ -82,7 +82,7 @@ fn one(ctx: &mut Ctx, rd: i64) {
     }
 }
 
-pub fn c17(ctx: &mut Ctx, _tier: &str, _r: &mut Rng, js: &[Value], _reqs: &[String], replay_only: bool) {
+pub fn c17(ctx: &mut Ctx, tier: &str, r: &mut Rng, js: &[Value], _reqs: &[String], replay_only: bool) {
     for v in js {
         if let Some(rd) = v.get("rd").and_then(|x| x.as_i64()) {
             one(ctx, rd);
@@ -111,6 +111,25 @@ pub fn c17(ctx: &mut Ctx, _tier: &str, _r: &mut Rng, js: &[Value], _reqs: &[Stri
             }
         }
         prev = Some(cur);
+    }
+    // the same dates in other orders (the result is a function of the date, not of what was converted
+    // before it on this thread): descending runs around year ends, and random jumps
+    let n_jump = if tier == "thorough" { 2_000_000 } else { 200_000 };
+    for _ in 0..n_jump {
+        one(ctx, r.int(1, RD_MAX));
+    }
+    for k in 0..(if tier == "thorough" { 20000 } else { 2000 }) {
+        // 1 Muharram of a random year, then the days before it, descending; then forwards across it again
+        let y = r.int(-640, 9666);
+        let start = ((y - 1) * 354 + (3 + 11 * y).div_euclid(30) + 227015).clamp(40, RD_MAX - 40);
+        for d in (start - 35..=start + 2).rev() {
+            one(ctx, d);
+        }
+        if k % 2 == 0 {
+            for d in start - 2..=start + 2 {
+                one(ctx, d);
+            }
+        }
     }
     ctx.exhaustive = true;
     ctx.nontrivial_extra = RD_MAX as u64; // every date is a distinct instance of the quantifier
